@@ -193,6 +193,10 @@ def run(check):
     check.run_rule('C15.R2', lambda c: rule_explicit_raises(c, 'C15.R2'))
     check.run_rule('C15.R3', lambda c: rule_validation(c, 'C15.R3'))
     check.run_rule('C15.R4', lambda c: rule_upgrade_on_entry(c, 'C15.R4'))
+    # plain inspect.Signature inputs are upgraded with empty evaluation wrappers and empty provenance: the conciliation must decide
+    # on the raw annotation/default (table B7), or plain inputs get other parameters than upgraded ones (shared with C10.R1)
+    from .. import rules_merge as rm
+    check.run_rule('C15.R4b', lambda c: rm.concile_table(c, c.repo, {'annotation': 'C15.R4', 'default': 'C15.R4'}))
     check.run_rule('C15.R5', lambda c: rule_fallback_discipline(c, 'C15.R5'))
     M = Models(check)
     from ..rules_embed import rule_embed_buckets
